@@ -287,7 +287,9 @@ impl TcpStream {
                     return Err(io::Error::new(ErrorKind::BrokenPipe, "broken pipe"));
                 }
                 let free = p.cap.saturating_sub(p.queued);
-                if free > 0 {
+                // like a kernel's send low-water mark: a blocked writer proceeds once a quarter of
+                // the buffer (or all it wants to write) is free, not for every freed byte
+                if free >= buf.len().min(p.cap / 4).max(1) {
                     let mut n = buf.len().min(free);
                     drop(p);
                     if n > 1 && rt::fault_chance(Fk::TcpSegment) {
